@@ -29,6 +29,60 @@ func udpDNSFastClose(ctx *Ctx, prop string) {
 	for i := 0; i < rounds; i++ {
 		runUDPDNS(ctx, prop, i%2 == 1, ctx.Rng.Intn(4))
 	}
+	udpDNSSilent(ctx, prop)
+}
+
+// udpDNSSilent: one query to a resolver that never answers, then the listener is closed while the
+// association is still waiting: the handler returns and nothing crashes (a crash of the
+// per-association goroutine takes the process down: the supervisor of the worker reports it).
+func udpDNSSilent(ctx *Ctx, prop string) {
+	n := atomic.AddInt64(&dnsTurn, 1) + int64(os.Getpid())*7
+	ip := net.IPv4(127, 53, byte(n>>8), byte(n))
+	dns, err := net.ListenUDP("udp", &net.UDPAddr{IP: ip, Port: 53})
+	if err != nil {
+		ctx.Count("dns:skipped-cannot-bind-port-53")
+		return
+	}
+	defer dns.Close()
+	cfg := []cfgKey{{ID: 0, C: 0, S: 3}}
+	cl := service.NewCipherList()
+	cl.Update(makeList(cfg))
+	rec := &recUDP{}
+	h := service.NewPacketHandler(3*time.Second, cl, rec, rec)
+	h.SetTargetIPValidator(func(net.IP) error { return nil })
+	srv, err := net.ListenPacket("udp", "127.0.0.1:0")
+	if err != nil {
+		return
+	}
+	done := make(chan struct{})
+	go func() { defer close(done); h.Handle(srv) }()
+	c, err := net.Dial("udp", srv.LocalAddr().String())
+	if err != nil {
+		srv.Close()
+		return
+	}
+	defer c.Close()
+	key := mkKey(0, 3)
+	taddr := append([]byte{1}, append(ip.To4(), 0, 53)...)
+	c.Write(sealDgram(key, genBytes(key.SaltSize(), uint32(n)), append(append([]byte{}, taddr...), []byte("query")...)))
+	time.Sleep(200 * time.Millisecond)
+	srv.Close() // shutdown with the lone, unanswered query's association alive
+	select {
+	case <-done:
+	case <-time.After(3 * time.Second):
+		ctx.Monitor(prop+"/handler-did-not-return", "Handle did not return within 3 s of the listener's close (one association with a single unanswered DNS query)", nil)
+	}
+	time.Sleep(300 * time.Millisecond) // the association's goroutine ends
+	removed := 0
+	for _, e := range rec.snapshot(0) {
+		if e.Kind == "remove" {
+			removed++
+		}
+	}
+	ctx.Count("dns:runs:silent-resolver-then-shutdown")
+	if removed != 1 {
+		ctx.Monitor("C14/dns-association-not-reclaimed-at-shutdown", fmt.Sprintf("an association with one unanswered DNS query was alive at shutdown: %d removals reported", removed), nil)
+	}
 }
 
 func runUDPDNS(ctx *Ctx, prop string, twoQueries bool, ci int) {
